@@ -4,6 +4,8 @@ import shutil
 import subprocess
 import sys
 
+_HERE = os.path.dirname(os.path.dirname(os.path.abspath(__file__)))
+
 
 def main():
     import z3
@@ -21,8 +23,8 @@ def main():
     if r.returncode:
         print("selfcheck: /venv/bin/python cannot import baize:", r.stderr[-500:])
         ok = False
-    os.makedirs("/verif/out/replay", exist_ok=True)
-    os.makedirs("/verif/evidence", exist_ok=True)
+    os.makedirs(os.path.join(_HERE, "out", "replay"), exist_ok=True)
+    os.makedirs(os.path.join(_HERE, "evidence"), exist_ok=True)
     print("selfcheck:", "ok" if ok else "FAILED", "z3", z3.get_version_string())
     return 0 if ok else 1
 
